@@ -16,6 +16,7 @@ Model conventions that the column store forces (written into the oracle, listed 
     same table, not a copy.
 """
 import copy as _copy
+import operator
 
 from hypothesis import strategies as st
 
@@ -37,6 +38,10 @@ ASSUMPTIONS = [
     'chained derived columns d(x = f(cols), y = g(x)) use two fresh target names (a target that is its own input is "circular" by design)',
     'construction from two columns of different lengths (neither 1) may raise ValueError; if it returns, only rectangularity is demanded',
     'tables are kept <= 24 rows (concatenations that would exceed this are skipped)',
+    'd += x, d -= cols, d &= cols are the statement forms of d + x, d - cols, d & cols: when the statement leaves a new object in the variable the old object and all other live tables '
+    'must be untouched; when it leaves the same object, that object holds the result and all OTHER live tables must be untouched',
+    'd |= {col: values} is generated with a list of fitting length only: dictable inherits dict.__ior__, which stores scalars unbroadcast and lists of any length without ValueError '
+    '(reported as a finding; arg allow_raw is never generated True). d *= / d /= are join / xor (C02), not table operations of this property',
 ]
 
 NAMES = ['a', 'b', 'c', 'd', 'e']
@@ -245,6 +250,15 @@ class Tables(object):
         'add_record': dict(t=_t, rec=_record, rec2=_record, src=_t, i=st.integers(0, 30), form=st.sampled_from(['dict', 'Dict', 'row_of', 'concat', 'records', 'records_perm', 'concat_perm', 'sum_perm'])),
         'add_none': dict(t=_t, form=st.sampled_from(['none', 'zero', 'rnone', 'rzero', 'zero_float'])),
         'copy': dict(t=_t, form=st.sampled_from(['copy', 'inc', 'exc', 'ctor', 'copy_module', 'full_slice'])),
+        # ---- augmented assignment: the statement  d += x  (d -= cols, d &= cols, d |= {col: values}); the pool gets whatever the statement leaves in the variable
+        'iadd_record': dict(t=_t, rec=_record, rec2=_record, src=_t, i=st.integers(0, 30), form=st.sampled_from(['dict', 'dict', 'Dict', 'row_of', 'records', 'records_perm'])),
+        'iadd_table': dict(t=_t, t2=_t),
+        'iadd_none': dict(t=_t, form=st.sampled_from(['none', 'zero'])),
+        'iop_cols': dict(t=_t, cols=st.lists(_ci, min_size=1, max_size=3), form=st.sampled_from(['isub_str', 'isub_list', 'iand_list', 'iand_extra', 'iand_str'])),
+        'ior': dict(t=_t, col=_ci, new=st.booleans(), mode=st.sampled_from(['fit', 'scalar', 'len1', 'misfit']), vals=_vals, k=st.integers(0, 9), allow_raw=st.just(False)),
+        # ---- integer-list selection, deletion of a column that is not the last one, integer-list selection again (on one table)
+        'reselect': dict(t=_t, idx=st.lists(st.integers(-30, 30), min_size=1, max_size=5), col=_ci, how=st.sampled_from(['item', 'attr']),
+                         idx2=st.lists(st.integers(-30, 30), min_size=1, max_size=5), form=st.sampled_from(['list', 'list', 'array'])),
     }
     _CTORS = ('new_records', 'new_columns', 'new_rows', 'new_empty', 'new_misfit')
     PRE = {}
@@ -252,8 +266,9 @@ class Tables(object):
         if _op not in _CTORS:
             PRE[_op] = lambda m: len(m.pool) > 0
     PRE['row'] = lambda m: any(e['m'].n > 0 for e in m.pool)
-    for _op in ('delcol', 'project', 'filter', 'derive'):
+    for _op in ('delcol', 'project', 'filter', 'derive', 'iop_cols'):
         PRE[_op] = lambda m: any(e['m'].cols for e in m.pool)
+    PRE['reselect'] = lambda m: any(len(e['m'].cols) >= 2 for e in m.pool)
     del _op
 
     def __init__(self):
@@ -566,8 +581,12 @@ class Tables(object):
         if e is None:
             return self._skip()
         self._use('delcol', e)
+        self._delcol(e, e['m'].cols[col % len(e['m'].cols)], how)
+
+    def _delcol(self, e, c, how):
         d, m = e['d'], e['m']
-        c = m.cols[col % len(m.cols)]
+        if e.get('sel') == 1 and len(m.cols) >= 2:
+            e['sel'] = 2        # an integer-list selection was made on this object before, and columns remain
         what = ('del d[%r]' if how == 'item' else 'del d.%s') % c + ' on %s' % short(raw(d), 150)
         snap = self._snap(skip=d)
         if how == 'item':
@@ -639,7 +658,14 @@ class Tables(object):
         if e is None:
             return self._skip()
         self._use('take', e)
+        self._take(e, idx, form)
+
+    def _take(self, e, idx, form, op='take'):
         d, m = e['d'], e['m']
+        if e.get('sel') == 2:
+            self.flags.add('take_delcol_take')
+        elif not e.get('sel'):
+            e['sel'] = 1
         n = m.n
         if n == 0:
             idx = []
@@ -654,7 +680,7 @@ class Tables(object):
         else:
             item = list(idx)
         res = self._pure('d[%s] on %s' % (short(item, 100), short(raw(d), 150)), d.__getitem__, item)
-        self._add('take', res, T(m.cols, [m.rows[i] for i in idx]), [e])
+        self._add(op, res, T(m.cols, [m.rows[i] for i in idx]), [e])
         if len(set(i % n for i in idx)) < len(idx):
             self.flags.add('repeated_rows')
 
@@ -990,6 +1016,152 @@ class Tables(object):
             self.flags.add('concat_diffcols')
         self._add('add_record', res, T.concat([m, rm]), operands)
 
+    # ------------------------------------------------------------------ augmented assignment
+    def _augmented(self, op, e, what, f, newm, operands):
+        """
+        x = d; x <op>= y.  Without an in-place method python evaluates x = x <op> y: a new table, and the old object as well as every other
+        live table stay as they were (the old object is kept in the pool so that the invariant keeps looking at it).  Should the
+        statement hand back the very same object, that object now holds the result and every OTHER live table stays as it was.
+        """
+        d, m = e['d'], e['m']
+        snap = self._snap()
+        res = call(what, f)
+        if res is d:
+            self._unchanged(what, [(x, before) for x, before in snap if x['d'] is not d])
+            m.cols, m.rows = list(newm.cols), [dict(r) for r in newm.rows]      # aliases share the model
+            e['gen'] += 1
+            self.flags.add('augmented_same_object')
+            if m.n == 0:
+                self.flags.add('empty')
+        else:
+            self._unchanged(what, snap)
+            if e in self.pool:
+                self.pool.remove(e)
+                self.pool.append(e)       # the old object is not the one that gets evicted
+            self._add(op, res, newm, operands)
+            self.flags.add('augmented_new_object')
+
+    def op_iadd_record(self, t, rec, rec2, src, i, form):
+        from pyg_base import Dict
+        self._begin('iadd_record')
+        e = self._pick(t)
+        if e is None or e['m'].n + 2 > MAXROWS:
+            return self._skip()
+        d, m = e['d'], e['m']
+        rd = short(raw(d), 150)
+        operands = [e]
+        r = {c: build(v) for c, v in rec}
+        if form == 'row_of':
+            s = self._pick(src, lambda e: e['m'].n > 0)
+            if s is None:
+                form = 'dict'
+            else:
+                operands.append(s)
+                r = dict(s['m'].rows[i % s['m'].n])
+        self._use('iadd_record', *operands)
+        if form in ('dict', 'row_of'):
+            x, rm = dict(r), T.from_records([r])
+        elif form == 'Dict':
+            x, rm = Dict(r), T.from_records([r])
+        else:
+            if form == 'records':
+                r2 = {c: build(v) for c, v in rec2}
+            else:
+                keys = list(r)
+                for c in NAMES:
+                    if len(keys) >= 2:
+                        break
+                    if c not in keys:
+                        keys.append(c)
+                kind = ['int', 'str', 'float', 'dt', 'mixed'][i % 5]
+                r = {c: build(_cv(c, 0, kind)) for c in keys}
+                shift = 1 + (i // 5) % (len(keys) - 1)
+                r2 = {c: build(_cv(c, 1, kind)) for c in keys[shift:] + keys[:shift]}
+            self._records_classes([r, r2])
+            x, rm = [dict(r), dict(r2)], T.from_records([r, r2])
+        if sorted(rm.cols) != sorted(m.cols):
+            self.flags.add('concat_diffcols')
+        self.flags.add('iadd')
+        self._augmented('iadd_record', e, 'd += %s on %s' % (short(x, 120), rd), lambda: operator.iadd(d, x), T.concat([m, rm]), operands)
+
+    def op_iadd_table(self, t, t2):
+        self._begin('iadd_table')
+        e, o = self._pick(t), self._pick(t2)
+        if e is None or e['m'].n + o['m'].n > MAXROWS:
+            return self._skip()
+        self._use('iadd_table', e, o)
+        d, m, x = e['d'], e['m'], o['d']
+        if sorted(o['m'].cols) != sorted(m.cols):
+            self.flags.add('concat_diffcols')
+        self.flags.add('iadd')
+        self._augmented('iadd_table', e, 'd += %s on %s' % (short(raw(x), 120), short(raw(d), 150)), lambda: operator.iadd(d, x), T.concat([m, o['m']]), [e, o])
+
+    def op_iadd_none(self, t, form):
+        self._begin('iadd_none')
+        e = self._pick(t)
+        if e is None:
+            return self._skip()
+        self._use('iadd_none', e)
+        d, m = e['d'], e['m']
+        x = None if form == 'none' else 0
+        self._augmented('iadd_none', e, 'd += %r on %s' % (x, short(raw(d), 150)), lambda: operator.iadd(d, x), m.copy(), [e])
+
+    def op_iop_cols(self, t, cols, form):
+        self._begin('iop_cols')
+        e = self._pick(t, lambda e: e['m'].cols)
+        if e is None:
+            return self._skip()
+        self._use('iop_cols', e)
+        d, m = e['d'], e['m']
+        rd = short(raw(d), 150)
+        cs = self._cols_of(e, cols)
+        if form in ('isub_str', 'iand_str'):
+            cs = cs[:1]
+            arg = cs[0]
+        elif form == 'iand_extra':
+            arg = [self._fresh(e, 3)] + cs
+        else:
+            arg = list(cs)
+        if form.startswith('isub'):
+            self._augmented('iop_cols', e, 'd -= %r on %s' % (arg, rd), lambda: operator.isub(d, arg), T([c for c in m.cols if c not in cs], m.rows), [e])
+        else:
+            self._augmented('iop_cols', e, 'd &= %r on %s' % (arg, rd), lambda: operator.iand(d, arg), T(cs, m.rows), [e])
+
+    def op_ior(self, t, col, new, mode, vals, k, allow_raw=False):
+        """d |= {col: values}: column assignment.  Only a list of fitting length is generated unless allow_raw (see the finding in ASSUMPTIONS)"""
+        self._begin('ior')
+        e = self._pick(t)
+        if e is None:
+            return self._skip()
+        self._use('ior', e)
+        d, m = e['d'], e['m']
+        if not allow_raw:
+            mode = 'fit'
+        c = self._fresh(e, col) if (new or not m.cols) else m.cols[col % len(m.cols)]
+        value, cells, fits = self._value(mode, vals, m.n, len(m.cols), k)
+        what = 'd |= {%r: %s} on %s' % (c, short(value, 100), short(raw(d), 150))
+        if fits:
+            self._augmented('ior', e, what, lambda: operator.ior(d, {c: value}), self._assign_model(m, c, cells), [e])
+        else:
+            snap = self._snap()
+            must_raise(what, ValueError, lambda: operator.ior(d, {c: value}))
+            self._unchanged(what + ' (rejected)', snap)
+            self.flags.add('misfit')
+
+    def op_reselect(self, t, idx, col, how, idx2, form):
+        """integer-list selection, deletion of a column that is not the last one, integer-list selection again - all on one table"""
+        self._begin('reselect')
+        e = self._pick(t, lambda e: len(e['m'].cols) >= 2 and e['m'].n > 0) or self._pick(t, lambda e: len(e['m'].cols) >= 2)
+        if e is None:
+            return self._skip()
+        self._use('reselect', e)
+        self._take(e, idx, form, op='reselect')
+        self.check()
+        keys = list(dict.keys(e['d']))
+        self._delcol(e, keys[col % (len(keys) - 1)], how)
+        self.check()
+        self._take(e, idx2, form, op='reselect')
+
     def op_add_none(self, t, form):
         self._begin('add_none')
         e = self._pick(t)
@@ -1097,12 +1269,14 @@ SUBS = [
                     'slices, boolean masks (list / array, all False, all True), integer lists (negative, repeated, range, array), d[[cols]], d[c1, c2], d & cols, d - cols, '
                     'inc / exc by value, d[lambda], d(c = lambda) incl. dependent pairs, d(c = value), rename / relabel (kw, dict, prefix, suffix, function, list), '
                     'do (all, *cols, [cols], [], [f, g], function of another column), + / concat / sum of tables (also of one table and itself with its columns reordered), + record(s) '
-                    '(records over one key set each written in its own key order, cells distinguishable per column; also ragged), + None / 0, copy / inc() / exc() / dictable(d) / d[:]. '
+                    '(records over one key set each written in its own key order, cells distinguishable per column; also ragged), + None / 0, copy / inc() / exc() / dictable(d) / d[:], the statements d += record(s) / table / None, d -= cols, d &= cols, d |= {col: fitting list} '
+                    '(old object kept alive and re-inspected), integer-list selection / deletion of a non-last column / selection again on one table. '
                     'oracle after every step for every live table: rectangular column store, len, shape, keys, columns, dict(d), d[c], iteration, d[i][c] == d[c][i] '
                     '(also negative i) against the model; all live tables unchanged by every non-in-place call; misfit assignment raises ValueError and changes nothing. '
                     'non-trivial = >= 3 operations, a table produced by one rule consumed by another, and an empty table / broadcast / concatenation with differing columns / '
                     'misfit assignment occurs; distinct = distinct history',
                floor=0.5,
                class_floors={'empty': 0.3, 'broadcast': 0.1, 'concat_diffcols': 0.15, 'misfit': 0.15, 'chain': 0.4, 'mask_to_empty': 0.05,
-                             'records_same_keys_different_order': 0.1, 'concat_same_cols_different_order': 0.03}),
+                             'records_same_keys_different_order': 0.1, 'concat_same_cols_different_order': 0.03,
+                             'iadd': 0.15, 'take_delcol_take': 0.1}),
 ]
